@@ -1298,7 +1298,8 @@ def get_rebind_dict(
     target: Upon which value the rebind dict is computed.
 
   Returns:
-    An ordered dict of key path string to updated value.
+    An ordered dict of key path (a `KeyPath` object, which can be looked up by
+    its string form) to updated value.
   """
   signature = pg_typing.signature(
       rebinder, auto_typing=False, auto_doc=False
@@ -1317,7 +1318,10 @@ def get_rebind_dict(
   def _fill_rebind_dict(path, value, parent):
     new_value = select_fn(path, value, parent)
     if new_value is not value:
-      path_value_pairs[str(path)] = new_value
+      # Keep the location as a `KeyPath` (which hashes and compares like its
+      # string form): a key that contains brackets or is empty does not
+      # survive `str()` + `KeyPath.parse`.
+      path_value_pairs[path] = new_value
       return TraverseAction.CONTINUE
     return TraverseAction.ENTER
 
